@@ -30,3 +30,8 @@ NOT_DECIDED = ["that the draws are distributed as N(a, A) and independent (numpy
 # the plumbing this property's claim runs through (contracts/chain.py): listed here too, so that a change inside it is caught by THIS check
 from . import chain as CH   # noqa: E402
 CH.extend(CONTRACTS, CH.readers() + CH.plumbing(('post',)) + CH.tables(pack=True, unpack=True))
+
+
+def EXTRA():
+    from . import chain as _CHX
+    return _CHX.frame_effects(PROPERTY)
